@@ -24,6 +24,7 @@ type srvPacket struct {
 	Prog    ref.Progress
 	Prof    ref.Profile
 	Chain   []ref.Exception
+	Method  int // 0: default of the packet kind; 1 NONE, 2 LZ4, 3 ZSTD (compressed connections only)
 	Timeout int // virtual read timeouts before this packet
 	// MidTimeout > 0: the packet arrives in two pieces (split after 1 + (MidTimeout-1) mod (len-1)
 	// bytes) with a pause between them during which an armed read deadline would expire. The
@@ -231,9 +232,9 @@ func (s *respScript) encode(p srvPacket, neg int) []byte {
 	compressed := s.Comp != ch.CompressionDisabled
 	switch p.Kind {
 	case "data":
-		return simnet.PacketData(neg, ref.ServerDataCode, p.Block, compressed, ref.MethodLZ4)
+		return simnet.PacketData(neg, ref.ServerDataCode, p.Block, compressed, c03Method(p, ref.MethodLZ4))
 	case "totals":
-		return simnet.PacketData(neg, ref.ServerTotalsCode, p.Block, compressed, ref.MethodZSTD)
+		return simnet.PacketData(neg, ref.ServerTotalsCode, p.Block, compressed, c03Method(p, ref.MethodZSTD))
 	case "events":
 		return simnet.PacketData(neg, ref.ServerProfileEventsCode, p.Block, false, 0)
 	case "log":
@@ -250,6 +251,20 @@ func (s *respScript) encode(p srvPacket, neg int) []byte {
 		return simnet.PacketEnd()
 	}
 	panic("bad kind " + p.Kind)
+}
+
+// c03Method: the compression method of one Data packet. Every frame names its own method, so a
+// server may mix them on one connection (NONE for small blocks, LZ4 / ZSTD otherwise).
+func c03Method(p srvPacket, def byte) byte {
+	switch p.Method {
+	case 1:
+		return ref.MethodNone
+	case 2:
+		return ref.MethodLZ4
+	case 3:
+		return ref.MethodZSTD
+	}
+	return def
 }
 
 // ---- model of the receive loop --------------------------------------------------------
